@@ -24,6 +24,7 @@ RULE = ('templates from a grammar: literal runs (ascii, unicode, %, $, quotes), 
         'malformed templates for containment only; non-trivial = a message was expected and compared; distinct by '
         '(template, frame inputs, mode)')
 ASSUMPTIONS = ['field expressions avoid the characters the format mini-language gives a meaning to']
+RULE += '; two threads building a message for one tracepoint at the same time (the first parked inside the text form of one of its fields while the second emits a whole message)'
 REQUIRE = {'messages_built_while_another_thread_is_inside_its_message': 15, 'messages_compared': 1000, 'fields_compared': 1500, 'failing_fields': 150, 'snapshot_log_pairs': 300,
            'label_checks': 1000, 'python_plugin_messages': 100, 'malformed_templates': 30,
            'messages_the_logger_rejected': 40, 'logger_reconfigured_cases': 40}
